@@ -11,6 +11,16 @@ CLAIMED = {
          "Every reachable session state over a 32-statement alphabet (bind, rebind, shadow, nested assignment, output, calls, failing and reserved-name statements) is enumerated to the BFS fixpoint; every transition runs one statement through get_pairs/evaluate_pairs and is checked against the immutability/scoping invariants and a reference model of the alphabet. Right level because the property is an invariant over all statement histories.",
          "Trusts the harness's canonical state key (sorted bindings + outputs) and the 32-statement reference model; names/values outside the alphabet are not explored.",
          "DESIGN.md §4 C03"),
+ "C07": ("exploration",
+         "generator-automaton enumeration of syntax trees x every maximum width up to each program's saturation bound; re-parse and AST comparison",
+         "Reference renderings of every tree of the generator families (every node kind; parent x child kind in every slot; thorough: full slot products, all depth-3 spines, depth-4 spines over class representatives - 3.1 M programs), literal families, the corpus and comment/blank-line/leading-minus statement sequences are formatted at every width from 1 to the per-program saturation bound (re-checked) plus the default; every distinct output is re-parsed and compared statement by statement with the input's AST. Paths: real format_blots (wasm source, native shim) and the real `blots --format` binary.",
+         "The wasm driver runs natively against stand-in wasm-bindgen crates; trees deeper than the families and programs outside them are not explored; width saturation argument is re-checked per program at B, B+1 and 10^6.",
+         "DESIGN.md §4 C07"),
+ "C08": ("exploration",
+         "same enumeration as C07; fixed-point check of the formatter on every distinct layout",
+         "For every (program, width) of the C07 space plus statement sequences with comments and 0..5 blank lines, every distinct formatter output is formatted again at the widths that produced it and must come back byte-identical; through format_blots (native shim) and `blots --format`.",
+         "Second pass is run at the first and last width of each group of widths that share an output; same bounds as C07.",
+         "DESIGN.md §4 C08"),
  "C10": ("exploration",
          "exhaustive enumeration of operator sequences, prefix/postfix combinations, layout-site choices and identifier shapes against a reference precedence-climbing parser",
          "All 676 operator pairs, 17576 triples, 6561 quadruples over level representatives and every prefix x postfix x operator combination are parsed in minimal and fully parenthesised form and compared with a precedence-climbing reference built from the property's table; every layout option at every grammar layout site (singly, pairwise, all at once) over every node kind / parent-child spine must leave the AST unchanged; every reserved word x every one-character prefix/suffix (plus compounds) is bound and referenced in 34 expression contexts.",
